@@ -48,6 +48,8 @@ func init() {
 					{File: "platform/onx.go", Old: "\t\t\t\ttarget := d.DefaultDesiredPriv\n", New: "\t\t\t\ttarget := defaultTarget\n"},
 					{File: "platform/definition.go", Old: "options.WithNetworkOnOpen(p.NetworkOnOpen.asNetworkOnX())", New: "options.WithNetworkOnOpen(p.NetworkOnOpen.asNetworkOnX(p.DefaultDesiredPrivilegeLevel))"},
 					{File: "platform/definition.go", Old: "options.WithNetworkOnClose(p.NetworkOnClose.asNetworkOnX())", New: "options.WithNetworkOnClose(p.NetworkOnClose.asNetworkOnX(p.DefaultDesiredPrivilegeLevel))"}}},
+			{ID: "C17-definition-cache", Desc: "parsed embedded definitions cached and handed out as shallow copies", Rule: "C17/fresh-definition",
+				Edits: []Edit{{File: "platform/definition.go", Old: "func loadPlatformDefinition(f string) (*Definition, error) {\n", New: "var definitionCache = map[string]*Definition{}\n\nfunc loadPlatformDefinition(f string) (*Definition, error) {\n\tif cached, ok := definitionCache[f]; ok {\n\t\tpd := *cached\n\n\t\treturn &pd, nil\n\t}\n\n\tdefer func() {\n\t\tif b, err := loadPlatformDefinitionFromAssets(f); err == nil {\n\t\t\tif pd, err := loadPlatformDefinitionFromBytes(b); err == nil {\n\t\t\t\tdefinitionCache[f] = pd\n\t\t\t}\n\t\t}\n\t}()\n\n"}}},
 			{ID: "C17-op-unknown", Desc: "network switch no longer handles driver.send-command", Rule: "C17/steps",
 				Edits: []Edit{{File: "platform/onx.go", Old: "case OpDriverSendCommand:\n\t\t\t\tc, ok", New: "case \"driver.send-cmd\":\n\t\t\t\tc, ok"}}},
 			{ID: "C17-suffix", Desc: "loader appends the wrong suffix", Rule: "C17/name-file",
@@ -65,6 +67,8 @@ func runC17(c *Ctx, r *Report) {
 	r.Rule("C17/patterns", "every level pattern, escalate-prompt and the |-joined pattern compile under RE2; escalate-auth implies a non-empty escalate-prompt", 15)
 	r.Rule("C17/steps", "every on-open/on-close step names an operation handled by the switch of its driver level, with the argument kinds that code asserts; acquire-priv targets name a level", 15)
 	r.Rule("C17/acquire-default", "an acquire-priv step without a target uses the running driver's DefaultDesiredPriv, read when the step runs", 1)
+	r.Rule("C17/graph-links", "the driver's privilege graph links every level of the definition with its previous level in both directions (levels without an escalate command remain starting points)", 2)
+	r.Rule("C17/fresh-definition", "the platform package modifies no package-level variable at run time: each load yields its own Definition / Platform objects", 1)
 	r.Rule("C17/options", "every option block entry uses an option name platform/options.go switches on, with a YAML value whose Go dynamic type is the one the code asserts", 1)
 	r.Rule("C17/merge", "mergeVariant assigns each mergeable section only from the same section of the variant, guarded by that section's non-empty test; all eight sections are merged", 8)
 
@@ -192,6 +196,8 @@ func runC17(c *Ctx, r *Report) {
 
 	checkMergeVariant(c, r)
 	checkOnXAcquireDefault(c, r)
+	checkFreshDefinition(c, r)
+	checkGraphLinks(c, r, "C17/graph-links")
 }
 
 func advertisedNames(c *Ctx) ([]string, bool) {
